@@ -461,7 +461,7 @@ func (u *Unit) frameObligations(r retInfo, con *Contract, pkg *types.Package) {
 	sort.Strings(names)
 	alloc0 := u.alloc(u.entry)
 	for _, hn := range names {
-		if hn == "alloc" || strings.HasPrefix(hn, "visited$") || strings.HasPrefix(hn, "lg$") {
+		if hn == "alloc" || strings.HasPrefix(hn, "visited$") || strings.HasPrefix(hn, "lg$") || strings.HasPrefix(hn, "defer$") {
 			continue
 		}
 		cur := r.st.heaps[hn]
